@@ -557,7 +557,7 @@ static CASE_NO: AtomicUsize = AtomicUsize::new(0);
 fn damaged(before: &[(String, Vec<u8>)], after: &[(String, Vec<u8>)], export: &HashMap<String, String>) -> Option<String> {
     for (p, old) in before {
         let now = after.iter().find(|(q, _)| q == p).map(|(_, b)| b.clone());
-        let key = p.trim_end_matches(".md");
+        let key = p.strip_suffix(".md").unwrap_or(p);
         let new = if p.ends_with(".md") { export.get(key).map(|s| s.as_bytes().to_vec()) } else { None };
         if now.as_ref() != Some(old) && (new.is_none() || now != new) {
             return Some(format!("{} holds {:?} (old {:?}, new {:?})", p, now.map(|b| String::from_utf8_lossy(&b).to_string()), String::from_utf8_lossy(old), new.map(|b| String::from_utf8_lossy(&b).to_string())));
